@@ -41,16 +41,53 @@ def HGood (orig rest : Bytes) (pos : Nat) : Step HSt (Res Err (List (Bytes × By
   | .done (.err _) => True
   | .cont st' => HI orig rest (pos + 1) st'
 
+theorem length_dropWhile_le (p : UInt8 → Bool) : ∀ l : Bytes, (l.dropWhile p).length ≤ l.length := by
+  intro l
+  induction l with
+  | nil => simp
+  | cons a l ih =>
+    rw [List.dropWhile_cons]
+    split
+    · simp only [List.length_cons]; omega
+    · simp
+
+theorem trimEndLen_le (v : Bytes) : trimEndLen v ≤ v.length := by
+  unfold trimEndLen
+  have := length_dropWhile_le isOws v.reverse
+  simpa using this
+
+/-- the value's end lies between its start and the LF -/
+theorem valueEndOf_bounds (orig : Bytes) (vs pos : Nat) (h1 : vs ≤ pos) (h2 : pos ≤ orig.length) :
+    vs ≤ valueEndOf orig vs pos ∧ valueEndOf orig vs pos ≤ pos := by
+  unfold valueEndOf
+  simp only
+  generalize hve : (if pos > vs ∧ orig[pos - 1]? = some CR then pos - 1 else pos) = ve0
+  have hb : vs ≤ ve0 ∧ ve0 ≤ pos := by
+    rw [← hve]; split <;> omega
+  cases hs : sliceGet orig vs ve0 with
+  | none => simp only; omega
+  | some v =>
+    simp only
+    have hl : v.length = ve0 - vs := by
+      unfold sliceGet at hs
+      split at hs
+      · simp only [Option.some.injEq] at hs; rw [← hs]; simp [List.length_take, List.length_drop]; omega
+      · cases hs
+    have := trimEndLen_le v
+    omega
+
 theorem hstep_safe (orig : Bytes) (b : UInt8) (rest : Bytes) (pos : Nat) (st : HSt) (hi : HI orig (b :: rest) pos st) :
     HGood orig rest pos (hstep orig b rest pos st) := by
   obtain ⟨hlen, hv⟩ := hi
   simp only [List.length_cons] at hlen
   have hc := skipWhile_cons_le ws b rest
-  have hm := skipWhile_mono (· == SP) ws (fun x hx => by simp [ws, hx]) (b :: rest)
-  have hws : skipWhile (fun x => x == SP || x == TAB) rest = skipWhile ws rest := rfl
+  have hows : isOws = ws := rfl
   have hlf0 : b = LF → skipWhile ws (b :: rest) = 0 := by
     intro e; subst e; simp [skipWhile, ws, LF, SP, TAB]
+  have hin_of : ¬ (!st.inValue) = true → st.inValue = true := by
+    intro h; cases hiv : st.inValue <;> simp_all
   unfold hstep
+  rw [hows]
   dsimp only
   repeat' split
   all_goals simp only [HGood, HI]
@@ -62,12 +99,11 @@ theorem hstep_safe (orig : Bytes) (b : UInt8) (rest : Bytes) (pos : Nat) (st : H
          | (have := hv hin; omega)
          | (exfalso; simp_all; done)
          | (split <;> omega))
-    | (have hin : st.inValue = true := by
-         cases hiv : st.inValue with
-         | true => rfl
-         | false => simp_all
-       have := hv hin
-       have := hlf0 (by assumption)
+    | (-- the slice of the value: `value_start ≤ value_end ≤ len`
+       have hin : st.inValue = true := hin_of (by assumption)
+       have h1 := hv hin
+       have h2 := hlf0 (by assumption)
+       have hb := valueEndOf_bounds orig st.valueStart pos (by omega) (by omega)
        omega)
 
 theorem hgo_safe (orig : Bytes) : ∀ (rem : Bytes) (pos : Nat) (st : HSt), HI orig rem pos st →
